@@ -36,7 +36,7 @@ ASSUMPTIONS = [
     "(None for float64); BytesIO is not used for it (numpy.fromfile needs a real file)",
     "npz/hdf5 keys are non-empty strings; default entry = 'arr_0' (npz) / first dataset in depth-first sorted-key order (hdf5)",
     "names for the unknown-suffix clause avoid upper-case variants of known suffixes, 'ark:'/'scp:' prefixes and a trailing '|'",
-    "unknown force_as values avoid '' and any spelling whose lower case is a valid value",
+    "unknown force_as values avoid any spelling whose lower case is a valid value; the empty string is an unknown value",
     "a wds_read_signal call that does not return within 300 s or kills the process is reported as a violation",
 ]
 
@@ -260,7 +260,8 @@ def _accesses(cont):
     fa = FORCE_AS[cont]
     if cont == "raw":
         return [("path", ("path", "file")), ("file", ("file", "file"))]
-    acc = [("path", ("path", None)), ("file", ("file", fa)), ("bytesio", ("bytesio", fa)), ("tmpfile", ("tmpfile", fa))]
+    acc = [("path", ("path", None)), ("file", ("file", fa)), ("bytesio", ("bytesio", fa)), ("tmpfile", ("tmpfile", fa)),
+           ("barename", ("barename", None))]
     if cont in ("wav16", "wav32", "flac", "aiff"):
         acc.append(("bytesio-soundfile", ("bytesio", "soundfile")))
     return acc
@@ -276,6 +277,14 @@ def _read(built, how, dtype, key):
         kw["key"] = key
     if mode == "path":
         return read_signal(built.path, dtype=np_dtype, force_as=force_as, **kw)
+    if mode == "barename":
+        # the file name alone, relative to the current directory
+        old = os.getcwd()
+        os.chdir(os.path.dirname(built.path))
+        try:
+            return read_signal(os.path.basename(built.path), dtype=np_dtype, force_as=force_as, **kw)
+        finally:
+            os.chdir(old)
     if mode == "file":
         with open(built.path, "rb") as f:
             return read_signal(f, dtype=np_dtype, force_as=force_as, **kw)
@@ -383,7 +392,7 @@ def check_errors(case):
             return {"nontrivial": True, "labels": labels}
         if kind == "unknown_force_as":
             fa = case["force_as"]
-            if not fa or fa.strip().lower() in VALID_FORCE_AS:
+            if fa is None or fa.strip().lower() in VALID_FORCE_AS:
                 raise Discard()
             what = "read_signal(%s, force_as=%r)" % (case["stream"], fa)
             if case["stream"] == "path":
@@ -737,7 +746,9 @@ def _error_cases(draw):
         base["stream"] = draw(st.sampled_from(["path", "file", "bytesio"]))
         base["force_as"] = draw(
             st.one_of(
-                st.sampled_from(["mp3", "numpy", "sphere", "h5", "torch", "text", "binary", "sound file", "wave", "hdf", "np", "pth", "nist", "raw", "auto", "."]),
+                st.sampled_from(["mp3", "numpy", "sphere", "h5", "torch", "text", "binary", "sound file", "wave", "hdf", "np", "pth", "nist", "raw", "auto", ".",
+                                 ]),
+                st.sampled_from(["", "", " "]),  # the empty string is not a type either (and is falsy)
                 st.text(alphabet="abcdefghijklmnopqrstuvwxyz0123456789_-", min_size=1, max_size=8),
                 st.sampled_from([".wav", ".npy", ".sph", "wav16", "npy2", "sph "]).filter(lambda s: s.strip().lower() not in VALID_FORCE_AS),
             )
